@@ -31,7 +31,9 @@ def norm(s):
     return s[:110].strip()
 
 
-def load_audit():
+def load_audit(config="default"):
+    """entries `file|function|kind|signature :: reason`; a leading `@cfg1,cfg2 ` restricts an entry to those build
+    configurations (sites that only exist in feature builds)."""
     out = {}
     if not os.path.exists(AUDIT_FILE):
         return out
@@ -39,6 +41,10 @@ def load_audit():
         line = line.rstrip("\n")
         if not line or line.startswith("#"):
             continue
+        if line.startswith("@"):
+            cfgs, line = line[1:].split(" ", 1)
+            if config not in cfgs.split(","):
+                continue
         if " :: " in line:
             k, why = line.split(" :: ", 1)
             out[k.strip()] = why.strip()
@@ -51,6 +57,17 @@ class Site:
 
     def key(self):
         return "%s|%s|%s" % (self.body.q, self.kind, norm(self.desc))
+
+    def akey(self):
+        return "%s|%s" % (self.body.file, self.key())
+
+    def cls(self):
+        k = self.kind
+        if k.startswith(("overflow", "divzero", "shift")):
+            return "D1"
+        if k.startswith(("explicit", "unwrap")):
+            return "D2"
+        return "D3"
 
 
 def local_ty(body, op):
@@ -160,7 +177,7 @@ def sites_of(body, tnt):
                                tuple(body.operand_expr(a) for a in args))
 
 
-def discharge(site):
+def discharge(site, facts=None):
     """Return a reason string if the site is provably safe by local guard reasoning, else None."""
     body, bb = site.body, site.bb
     k = site.kind
@@ -168,6 +185,15 @@ def discharge(site):
         a, b = site.operands
         if known_ge(body, bb, a, b):
             return "minuend >= subtrahend on every path"
+        if facts is not None and known_ge_at_callers(facts, body, a, b):
+            return "minuend >= subtrahend established at every call site of this helper"
+        return None
+    if k in ("slice:split_at", "slice:split_at_mut", "slice:drain", "slice:remove", "slice:swap_remove", "slice:split_off", "slice:truncate") and len(site.operands) >= 2:
+        ec, ei = site.operands[0], site.operands[1]
+        lenc = E("call", q="len", args=[ec])
+        pi = peel(ei, through_try=False)
+        if pi.k != "agg" and known_ge(body, bb, lenc, ei):
+            return "position bounded by this container's len()"
         return None
     if k == "divzero":
         (a,) = site.operands
@@ -180,6 +206,15 @@ def discharge(site):
     if k == "bounds":
         ln, ix = site.operands
         pl, pi = peel(ln, through_try=False), peel(ix, through_try=False)
+        # slice[len/c] : fine when the slice is non-empty (locally or at every call site)
+        if pi.k == "bin" and pi.op == "Div":
+            pa_, pb_ = peel(pi.a, through_try=False), peel(pi.b, through_try=False)
+            if pa_.k == "call" and (pa_.q or "").split("::")[-1] == "len" and pb_.k == "const" and (pb_.v or 0) >= 2:
+                one = E("const", v=1, ty="usize")
+                if known_ge(body, bb, pa_, one):
+                    return "index = len()/c of a slice established non-empty"
+                if facts is not None and known_ge_at_callers(facts, body, pa_, one):
+                    return "index = len()/c of a slice established non-empty at every call site of this helper"
         if pl.k == "const" and pl.v is not None:
             # masked index
             for x in walk(pi):
@@ -252,27 +287,63 @@ def discharge(site):
     return None
 
 
+def _audit_cls(akey):
+    kind = akey.split("|")[2] if akey.count("|") >= 3 else ""
+    if kind.startswith(("overflow", "divzero", "shift")):
+        return "D1"
+    if kind.startswith(("explicit", "unwrap")):
+        return "D2"
+    return "D3"
+
+
 def rule_scope(facts, col, pred=None, rule_id="C15"):
     tnt = _taint(facts)
-    audit = load_audit()
+    audit = load_audit(getattr(facts, "config", "default")) if facts.crate == "rustradio" else {}
     bodies = [b for b in scope_bodies(facts) if pred is None or pred(b)]
     seen_keys = set()
+    pending = []      # undischarged, not exactly audited
+    used_audit = set()
     for body in bodies:
         for site in sites_of(body, tnt):
             key = site.key()
             if key in seen_keys:
                 key = key + "#2"
             seen_keys.add(key)
-            rid = "%s.%s" % (rule_id, {"overflow:Sub": "D1", "overflow:Add": "D1", "overflow:Mul": "D1", "divzero": "D1", "shift": "D1"}.get(site.kind, "D2" if site.kind.startswith(("explicit", "unwrap")) else "D3")) if rule_id == "C15" else rule_id
-            why = discharge(site)
+            rid = ("%s.%s" % (rule_id, site.cls())) if rule_id == "C15" else rule_id
+            why = discharge(site, facts)
             if why:
                 col.ok(rid, key, body.where(site.bb), why)
-            elif site.key() in audit:
-                col.ok(rid, key, body.where(site.bb), "audited: " + audit[site.key()])
+            elif site.akey() in audit:
+                used_audit.add(site.akey())
+                col.ok(rid, key, body.where(site.bb), "audited: " + audit[site.akey()])
             else:
-                col.bad(rid, key, body.where(site.bb),
+                pending.append((rid, key, site))
+    # Slot reuse: an audited site that no longer exists (renamed operands, extracted helper, method form ...)
+    # frees one slot for an un-audited site of the same class in the same file.  A removed guard adds a site
+    # without freeing a slot and is still reported.
+    free = {}
+    files_in_scope = {b.file for b in bodies}
+    for ak in audit:
+        if ak in used_audit:
+            continue
+        fl = ak.split("|", 1)[0]
+        if fl not in files_in_scope:
+            continue
+        free[(fl, _audit_cls(ak))] = free.get((fl, _audit_cls(ak)), 0) + 1
+    groups = {}
+    for rid, key, site in pending:
+        groups.setdefault((site.body.file, site.cls()), []).append((rid, key, site))
+    for (fl, cls), lst in groups.items():
+        if len(lst) <= free.get((fl, cls), 0):
+            for rid, key, site in lst:
+                col.ok(rid, key, site.body.where(site.bb),
+                       "within the audited budget of %s/%s: an audited site of this class no longer exists in this file (reshaped code)" % (fl, cls))
+        else:
+            for rid, key, site in lst:
+                col.bad(rid, key, site.body.where(site.bb),
                         "content-dependent panic edge without a dominating guard: %s (%s). Input content reaches these operands; nothing on "
-                        "the path establishes the condition that keeps this from panicking" % (site.desc[:160], site.kind), {"kind": site.kind})
+                        "the path establishes the condition that keeps this from panicking (%d un-audited site(s) of class %s in %s, %d "
+                        "free audited slot(s))" % (site.desc[:160], site.kind, len(lst), cls, fl, free.get((fl, cls), 0)), {"kind": site.kind})
     return len(bodies)
 
 
